@@ -50,7 +50,7 @@ func (x *Exec) call(st *State, in ssa.Instruction, cc *ssa.CallCommon, res ssa.V
 	// site assertions from the caller's contract
 	if x.con != nil {
 		for _, cl := range x.con.Asserts[site] {
-			env := x.newEnv(st, x.entry)
+			env := x.newEnv(st, x.oldOf(st))
 			env.bindCallArgs(tgt, recv, args)
 			t := env.evalBool(cl.Expr)
 			x.obligeClause("assert", site+"/"+clauseLabel(cl), st.reach, t, cl)
@@ -71,10 +71,17 @@ func (x *Exec) call(st *State, in ssa.Instruction, cc *ssa.CallCommon, res ssa.V
 	}
 	switch {
 	case tgt.con != nil:
+		if tgt.con.NoBody {
+			vc.note("assumed contract of dependency (stub): " + tgt.display)
+		} else if tgt.con.Trusted {
+			vc.note("trusted contract (body not verified against it): " + tgt.display + " " + strings.Join(tgt.con.Notes, "; "))
+		} else if strings.HasPrefix(tgt.display, "iface ") || tgt.dynamic {
+			vc.note("contract assumed for dynamic callee: " + tgt.display)
+		}
 		if len(tgt.con.Locks) > 0 {
 			x.callerAcquire(st, tgt, recv, args)
 		}
-		results := x.applyContract(st, in, tgt, recv, args, sig, site)
+		results := x.applyContract(st, in, tgt, recv, args, sig, site, cc)
 		x.setResult(res, sig, results)
 		if md, base, sty := x.monitorLockArg(cc); md != nil && (strings.HasSuffix(tgt.display, ".Lock") || strings.HasSuffix(tgt.display, ".RLock")) {
 			x.monitorAcquire(st, md, sty, base)
@@ -113,7 +120,7 @@ type target struct {
 	pkg      *types.Package // scope for resolving names in the contract
 }
 
-func (x *Exec) applyContract(st *State, in ssa.Instruction, tgt *target, recv *val, args []val, sig *types.Signature, site string) []string {
+func (x *Exec) applyContract(st *State, in ssa.Instruction, tgt *target, recv *val, args []val, sig *types.Signature, site string, cc *ssa.CallCommon) []string {
 	vc := x.vc
 	c := tgt.con
 	pre := st.clone()
@@ -123,11 +130,18 @@ func (x *Exec) applyContract(st *State, in ssa.Instruction, tgt *target, recv *v
 		env.bindCallArgs(tgt, recv, args)
 		env.callee = tgt
 		t := env.evalBool(cl.Expr)
-		o := &Obl{Name: x.prefix + "/pre/" + site + "/" + clauseLabel(cl), Kind: "pre", Props: x.props, Reach: st.reach, Goal: t, Src: "requires " + cl.Text}
-		if in != nil && in.Pos().IsValid() {
-			o.Pos = x.g.fset.Position(in.Pos())
+		parts := splitAnd(t)
+		for pi, g := range parts {
+			nm := clauseLabel(cl)
+			if len(parts) > 1 {
+				nm = fmt.Sprintf("%s.%d", nm, pi)
+			}
+			o := &Obl{Name: x.prefix + "/pre/" + site + "/" + nm, Kind: "pre", Props: x.props, Reach: st.reach, Goal: g, Src: "requires " + cl.Text}
+			if in != nil && in.Pos().IsValid() {
+				o.Pos = x.g.fset.Position(in.Pos())
+			}
+			vc.oblige(o)
 		}
-		vc.oblige(o)
 		r := vc.fresh("r", sBool)
 		vc.assert(eq(r, and(st.reach, t)))
 		st.reach = r
@@ -140,7 +154,27 @@ func (x *Exec) applyContract(st *State, in ssa.Instruction, tgt *target, recv *v
 		x.applyMod(st, envPre, m)
 	}
 	if len(c.Locks) > 0 || c.TouchesOwned {
-		x.havocOwned(st)
+		var mds []*MonitorDef
+		if c.TouchesOwned {
+			mds = x.g.cs.Monitors
+		} else {
+			for _, le := range c.Locks {
+				env := x.newEnvFor(pre, pre, tgt.pkg)
+				env.bindCallArgs(tgt, recv, args)
+				env.callee = tgt
+				o := env.eval(le)
+				if pt, ok := o.typ.Underlying().(*types.Pointer); ok {
+					if md := x.g.monitorOfType(pt.Elem()); md != nil {
+						mds = append(mds, md)
+					}
+				}
+			}
+		}
+		x.havocOwned(st, mds)
+	}
+	// 2b. callbacks the callee may invoke
+	for _, ic := range c.Invokes {
+		x.applyInvoke(st, pre, in, tgt, ic, recv, args, cc, site)
 	}
 	// allocation may have happened
 	oldNext := vc.getNext(st)
@@ -153,6 +187,7 @@ func (x *Exec) applyContract(st *State, in ssa.Instruction, tgt *target, recv *v
 		rt := sig.Results().At(i).Type()
 		r := vc.fresh("ret_"+sanitize(tgt.display), vc.sortOf(rt))
 		x.assumeType(st, r, rt)
+		x.assumeUnowned(st, r, rt)
 		results = append(results, r)
 	}
 	// 3b. declared ghost effects
@@ -196,20 +231,12 @@ func (x *Exec) applyMod(st *State, env *Env, m *ModItem) {
 		}
 		st.comp[comp] = vc.fresh(strings.Trim(comp, "|")+"_h", vc.reg().sorts[comp])
 	default:
-		comp, ref := env.modTarget(m)
-		cur := vc.get(st, comp)
-		srt := vc.reg().sorts[comp]
-		// element sort of (Array Int X)
-		es := strings.TrimSuffix(strings.TrimPrefix(srt, "(Array Int "), ")")
-		f := vc.fresh("hv", es)
-		vc.set(st, comp, store(cur, ref, f))
-		// second component for maps
-		if m.MapOf {
-			comp2 := env.modTarget2(m)
-			cur2 := vc.get(st, comp2)
-			srt2 := vc.reg().sorts[comp2]
-			es2 := strings.TrimSuffix(strings.TrimPrefix(srt2, "(Array Int "), ")")
-			vc.set(st, comp2, store(cur2, ref, vc.fresh("hv", es2)))
+		for _, cr := range env.modTargets(m) {
+			cur := vc.get(st, cr.comp)
+			srt := vc.reg().sorts[cr.comp]
+			es := strings.TrimSuffix(strings.TrimPrefix(srt, "(Array Int "), ")")
+			f := vc.fresh("hv", es)
+			vc.set(st, cr.comp, store(cur, cr.ref, f))
 		}
 	}
 }
@@ -295,7 +322,7 @@ func (x *Exec) monitorAcquire(st *State, md *MonitorDef, sty types.Type, base st
 	if x.depth == 0 && x.con != nil {
 		var alts []string
 		for _, le := range x.con.Locks {
-			env := x.newEnv(x.entry, x.entry)
+			env := x.newEnv(x.oldOf(st), x.oldOf(st))
 			alts = append(alts, eq(env.eval(le).t, base))
 		}
 		x.vc.oblige(&Obl{Name: fmt.Sprintf("%s/locks-declared/%s.%s", x.prefix, md.Type, md.Lock), Kind: "locks-declared", Props: x.props, Reach: st.reach, Goal: or(alts...),
@@ -303,9 +330,10 @@ func (x *Exec) monitorAcquire(st *State, md *MonitorDef, sty types.Type, base st
 	}
 	x.havocProtected(st, md, sty, base)
 	// the contract of a function that `locks` this object is relative to the acquisition state
-	if x.depth == 0 && x.con != nil && len(x.con.Locks) > 0 && !x.acquired {
-		x.acquired = true
-		x.entry = st.clone()
+	if x.depth == 0 && x.con != nil && len(x.con.Locks) > 0 && st.entry == x.entry0 {
+		snap := st.clone()
+		snap.entry = nil
+		st.entry = snap
 	}
 }
 
@@ -361,16 +389,43 @@ func (x *Exec) monitorRelease(st *State, in ssa.Instruction, md *MonitorDef, sty
 }
 
 // havocOwned: a callee running inside a monitor may change objects owned by monitors (and make new ones owned).
-func (x *Exec) havocOwned(st *State) {
+func (x *Exec) havocOwned(st *State, mds []*MonitorDef) {
 	vc := x.vc
 	vc.regComp("Owned", "(Array Int Bool)")
 	owned := vc.get(st, "Owned")
-	var names []string
-	for k := range vc.reg().sorts {
-		b := strings.Trim(k, "|")
-		if strings.HasPrefix(b, "Arr$") || strings.HasPrefix(b, "MapDom$") || strings.HasPrefix(b, "MapVal$") {
-			names = append(names, k)
+	// only the kinds of objects these monitors can own: the maps / backing arrays their protected fields hold
+	nameSet := map[string]bool{}
+	for _, md := range mds {
+		p := x.g.pkgByPath(md.Pkg)
+		if p == nil {
+			continue
 		}
+		obj := p.Scope().Lookup(md.Type)
+		if obj == nil {
+			continue
+		}
+		s, ok := obj.Type().Underlying().(*types.Struct)
+		if !ok {
+			continue
+		}
+		for _, fn := range md.Fields {
+			for i := 0; i < s.NumFields(); i++ {
+				if s.Field(i).Name() != fn {
+					continue
+				}
+				switch u := s.Field(i).Type().Underlying().(type) {
+				case *types.Map:
+					nameSet[vc.mapDom(u)] = true
+					nameSet[vc.mapVal(u)] = true
+				case *types.Slice:
+					nameSet[vc.arrHeap(u.Elem())] = true
+				}
+			}
+		}
+	}
+	var names []string
+	for k := range nameSet {
+		names = append(names, k)
 	}
 	sort.Strings(names)
 	for _, k := range names {
@@ -513,6 +568,168 @@ func (x *Exec) inline(st *State, tgt *target, args []val) []string {
 	return results
 }
 
+// applyInvoke: the callee calls its function-valued parameter ic.Param any number of times.
+func (x *Exec) applyInvoke(st, pre *State, in ssa.Instruction, tgt *target, ic *InvokeClause, recv *val, args []val, cc *ssa.CallCommon, site string) {
+	vc := x.vc
+	idx := -1
+	for i, p := range tgt.params {
+		if p == ic.Param {
+			idx = i
+		}
+	}
+	if idx < 0 || cc == nil || idx >= len(cc.Args) {
+		panic(contractErr("invokes: no parameter " + ic.Param))
+	}
+	var fn *ssa.Function
+	var mc *ssa.MakeClosure
+	switch a := cc.Args[idx].(type) {
+	case *ssa.MakeClosure:
+		mc = a
+		fn = a.Fn.(*ssa.Function)
+	case *ssa.Function:
+		fn = a
+	}
+	var ccon *Contract
+	if fn != nil && fn.Pkg != nil {
+		ccon = x.g.cs.Funcs[fn.Pkg.Pkg.Path()+"|"+relName(fn)]
+	}
+	if ccon == nil {
+		vc.note("callback without contract passed to " + tgt.display + " in " + x.fn.String() + ": all modelled state havocked")
+		vc.havocAll(st)
+		return
+	}
+	fref := args[idx].t
+	mkEnv := func(cur, old *State) *Env {
+		env := x.newEnvFor(cur, old, fn.Pkg.Pkg)
+		env.lazy = map[string]func(*Env) val{}
+		env.capturedCell = map[string]func() (string, string){}
+		if mc != nil {
+			for i, fv := range fn.FreeVars {
+				b := mc.Bindings[i]
+				lv := x.lvalueForRead(b)
+				if lv == nil {
+					continue
+				}
+				et := fv.Type().Underlying().(*types.Pointer).Elem()
+				lvc := lv
+				env.lazy[fv.Name()] = func(e *Env) val { return val{vc.load(e.cur, lvc), et, vc.sortOf(et)} }
+				if lvc.kind == "cell" {
+					env.capturedCell[fv.Name()] = func() (string, string) { return vc.cellHeap(lvc.typ), lvc.base }
+				}
+			}
+		}
+		env.names["self"] = val{fref, fn.Signature, sInt}
+		return env
+	}
+	// bound variables standing for the arguments of one invocation
+	var decls []string
+	bound := map[string]val{}
+	for i, p := range fn.Params {
+		name := quote(fmt.Sprintf("q$cb%d", i))
+		srt := vc.sortOf(p.Type())
+		decls = append(decls, "("+name+" "+srt+")")
+		v := val{name, p.Type(), srt}
+		bound[p.Name()] = v
+		if i < len(ic.Vars) {
+			bound[ic.Vars[i]] = v
+		}
+	}
+	where := "true"
+	if ic.Where != nil {
+		wenv := x.newEnvFor(pre, pre, tgt.pkg)
+		for _, bv := range ic.With {
+			t, srt := wenv.resolveSpecType(bv.Type)
+			name := quote("q$w$" + bv.Name)
+			decls = append(decls, "("+name+" "+srt+")")
+			wenv.names[bv.Name] = val{name, t, srt}
+		}
+		wenv.bindCallArgs(tgt, recv, args)
+		wenv.callee = tgt
+		for k, v := range bound {
+			wenv.names[k] = v
+		}
+		where = wenv.evalBool(ic.Where)
+	}
+	quant := func(body string) string {
+		if len(decls) == 0 {
+			return body
+		}
+		return "(forall (" + strings.Join(decls, " ") + ") " + body + ")"
+	}
+	// 1. the callback's preconditions hold for every invocation the callee may make
+	for _, cl := range ccon.Req {
+		env := mkEnv(pre, pre)
+		for k, v := range bound {
+			env.names[k] = v
+		}
+		t := env.evalBool(cl.Expr)
+		o := &Obl{Name: x.prefix + "/pre/" + site + "/callback " + ic.Param + "/" + clauseLabel(cl), Kind: "pre", Props: x.props, Reach: st.reach, Goal: quant(implies(where, t)), Src: "callback " + relName(fn) + " requires " + cl.Text + " whenever " + tgt.display + " invokes it"}
+		if in != nil && in.Pos().IsValid() {
+			o.Pos = x.g.fset.Position(in.Pos())
+		}
+		vc.oblige(o)
+	}
+	// 1b. what it maintains must hold before the first invocation
+	for _, cl := range ccon.Maintains {
+		t := mkEnv(pre, pre).evalBool(cl.Expr)
+		o := &Obl{Name: x.prefix + "/pre/" + site + "/callback " + ic.Param + "/maintains/" + clauseLabel(cl), Kind: "pre", Props: x.props, Reach: st.reach, Goal: t, Src: "callback " + relName(fn) + " maintains " + cl.Text + " (must hold initially)"}
+		vc.oblige(o)
+	}
+	// 2. its effects, any number of times: havoc its frame, keep what it preserves
+	var before []val
+	for _, cl := range ccon.Preserves {
+		before = append(before, mkEnv(pre, pre).eval(cl.Expr))
+	}
+	envPre := mkEnv(pre, pre)
+	for _, m := range ccon.Mods {
+		x.applyMod(st, envPre, m)
+	}
+	vc.regComp("Calls", "(Array Int Int)")
+	oldCalls := vc.get(st, "Calls")
+	nc := vc.fresh("ncalls", sInt)
+	vc.assert(app(">=", nc, sel(oldCalls, fref)))
+	vc.set(st, "Calls", store(oldCalls, fref, nc))
+	oldNext := vc.getNext(st)
+	nn := vc.fresh("next", sInt)
+	vc.assert(app(">=", nn, oldNext))
+	st.comp["next"] = nn
+	for i, cl := range ccon.Preserves {
+		after := mkEnv(st, pre).eval(cl.Expr)
+		vc.assert(implies(st.reach, eq(after.t, before[i].t)))
+	}
+	for _, cl := range ccon.Maintains {
+		vc.assert(implies(st.reach, mkEnv(st, pre).evalBool(cl.Expr)))
+	}
+	// 3. a pure callback is a function of its arguments: its postcondition characterises capply
+	if ccon.Pure && fn.Signature.Results().Len() == 1 {
+		sorts := []string{sInt}
+		as := []string{fref}
+		for _, p := range fn.Params {
+			sorts = append(sorts, vc.sortOf(p.Type()))
+			as = append(as, bound[p.Name()].t)
+		}
+		rt := fn.Signature.Results().At(0).Type()
+		ap := app(capplyName(vc, sorts, vc.sortOf(rt)), as...)
+		var reqs []string
+		for _, cl := range ccon.Req {
+			env := mkEnv(pre, pre)
+			for k, v := range bound {
+				env.names[k] = v
+			}
+			reqs = append(reqs, env.evalBool(cl.Expr))
+		}
+		for _, cl := range ccon.Ens {
+			env := mkEnv(pre, pre)
+			for k, v := range bound {
+				env.names[k] = v
+			}
+			env.bindResults(fn.Signature, []string{ap})
+			t := env.evalBool(cl.Expr)
+			vc.assert(implies(st.reach, "(forall ("+strings.Join(decls, " ")+") (! "+implies(and(reqs...), t)+" :pattern ("+ap+")))"))
+		}
+	}
+}
+
 // spawnCheck: `go f(...)`: the spawned function's preconditions are obligations here.
 func (x *Exec) spawnCheck(st *State, g *ssa.Go) {
 	cc := &g.Call
@@ -533,7 +750,7 @@ func (x *Exec) spawnCheck(st *State, g *ssa.Go) {
 	}
 	if x.con != nil {
 		for _, cl := range x.con.Asserts[site] {
-			env := x.newEnv(st, x.entry)
+			env := x.newEnv(st, x.oldOf(st))
 			env.bindCallArgs(tgt, recv, args)
 			t := env.evalBool(cl.Expr)
 			x.obligeClause("assert", site+"/"+clauseLabel(cl), st.reach, t, cl)
